@@ -44,6 +44,8 @@ def expr(e):
         return e["n"]
     if k == "cref":
         return e["n"]
+    if k == "pres":
+        return "$present(%s)" % e["n"]
     assert k == "op", e
     fn = e["fn"]
     args = e["args"]
@@ -76,6 +78,15 @@ def _defs_text(defs):
     return out
 
 
+def _has_pres(e):
+    return e["k"] == "pres" or any(_has_pres(a) for a in e.get("args", ()))
+
+
+# the members $present() may be asked about (BoundsGen!PresNames, BoundsCheck!PresVal); the guards ga / gc are
+# ordinary variables of the case (BoundsGen!GuardVars), "sub.gy" / "osub.gy" are the member gy of those fields
+SUB = ["struct Sub:", "  0 [+1]  bits:", "    0 [+1]  UInt  gy", "  if gy == 1:", "    1 [+1]  UInt  py", "  2 [+1]  UInt  pz", ""]
+
+
 def _used_vars(e, acc):
     if e["k"] == "var":
         acc.add(e["n"])
@@ -88,9 +99,12 @@ def render(case, defs):
     """Returns the .emb text placing case["e"] as `let v` and at case["pos"]."""
     lines = ['[$default byte_order: "LittleEndian"]', ""]
     lines += _defs_text(defs)
+    pres = _has_pres(case["e"])
+    if pres:
+        lines += SUB
     used = _used_vars(case["e"], set())
     params = [v for v in case["vars"] if v["param"]]
-    phys = [v for v in case["vars"] if not v["param"]]
+    phys = [v for v in case["vars"] if not v["param"] and "." not in v["n"]]
     flags = sorted(n for n in used if n not in {v["n"] for v in case["vars"]})  # wide family: one-bit flags
     head = "struct %s" % STRUCT
     if params:
@@ -110,6 +124,14 @@ def render(case, defs):
         lines.append("  %d [+1]  bits:" % off)
         lines.append("    0 [+1]  UInt  %s" % n)
         off += 1
+    if pres:
+        lines.append("  %d [+1]  UInt  pa" % off)
+        lines.append("  if ga == 1:")
+        lines.append("    %d [+1]  UInt  pb" % (off + 1))
+        lines.append("  %d [+3]  Sub  sub" % (off + 2))
+        lines.append("  if gc == 1:")
+        lines.append("    %d [+3]  Sub  osub" % (off + 5))
+        off += 8
     lines.append("  let v = %s" % text)
     if pos == "size":
         lines.append("  %d [+%s]  UInt:8[]  arr" % (off, text))
